@@ -34,7 +34,7 @@ def run(ctx, report: Report) -> None:
     report.trusted_base = ['re._parser.parse', 'ast']
 
     # ---- R1 ----------------------------------------------------------------------------------------------
-    r1 = report.rule('C20-R1', 'scanner loops make progress or leave', floor=12)
+    r1 = report.rule('C20-R1', 'scanner loops make progress or leave', floor=6)
     targets = [('css_parser.CSSParser.selector_iter', 'tokens'), ('pretty.pretty', 'pretty')]
     for fq, kind in targets:
         mod, fn = src.func(fq)
@@ -90,7 +90,7 @@ def run(ctx, report: Report) -> None:
                 r1.violation(f'{fq} loop-bound', mod.where(lp.node), f'{fq}: the loop bound {lp.bound} changes inside the loop')
 
     # ---- R2 ----------------------------------------------------------------------------------------------
-    r2 = report.rule('C20-R2', 'the pretty-printer emits every token kind', floor=8)
+    r2 = report.rule('C20-R2', 'the pretty-printer emits every token kind', floor=4)
     pmod, pfn = src.func('pretty.pretty')
     dn = inv.folder.env_nodes['pretty'].get('TOKENS')
     keys = [k.value for k in dn.keys if isinstance(k, ast.Constant)]
@@ -143,7 +143,7 @@ def run(ctx, report: Report) -> None:
                      f'pretty(): a character that no token pattern matches yields {out!r} instead of being copied to the output')
 
     # ---- R3 ----------------------------------------------------------------------------------------------
-    r3 = report.rule('C20-R3', 'syntax errors carry the pattern and the position named in the message', floor=6)
+    r3 = report.rule('C20-R3', 'syntax errors carry the pattern and the position named in the message', floor=3)
     cmod = src.mod('css_parser')
     for q, fn in cmod.functions.items():
         for rs in [n for n in walk_no_nested(fn) if isinstance(n, ast.Raise) and isinstance(n.exc, ast.Call)]:
@@ -212,7 +212,7 @@ def run(ctx, report: Report) -> None:
                 r3.violation(f'css_parser.{q} raise {p[:50]}', cmod.where(rs), f'css_parser.{q}: SelectorSyntaxError {p}')
 
     # ---- R4 ----------------------------------------------------------------------------------------------
-    r4 = report.rule('C20-R4', 'statements under the debug flag only print', floor=7)
+    r4 = report.rule('C20-R4', 'statements under the debug flag only print', floor=3)
     for mn, mod in src.mods.items():
         for q, fn in mod.functions.items():
             for n in walk_no_nested(fn):
@@ -272,7 +272,7 @@ def run(ctx, report: Report) -> None:
     pattern_handover_table(ctx, r4)
 
     # ---- R5 ----------------------------------------------------------------------------------------------
-    r5 = report.rule('C20-R5', 'SelectorSyntaxError derives its position whenever pattern and index are given', floor=3)
+    r5 = report.rule('C20-R5', 'SelectorSyntaxError derives its position whenever pattern and index are given', floor=1)
     umod, ifn = src.func('util.SelectorSyntaxError.__init__')
     params = [a.arg for a in ifn.args.args]
     if len(params) < 4:
